@@ -11,6 +11,7 @@ import (
 	"errors"
 	"fmt"
 	"hash/crc32"
+	"math"
 
 	"github.com/gopacket/gopacket"
 )
@@ -252,11 +253,15 @@ func decodeSCTPChunkTypeUnknown(data []byte, p gopacket.PacketBuilder) error {
 
 // SerializeTo is for gopacket.SerializableLayer.
 func (s SCTPUnknownChunkType) SerializeTo(b gopacket.SerializeBuffer, opts gopacket.SerializeOptions) error {
+	if s.ActualLength < 0 || s.ActualLength > roundUpToNearest4(math.MaxUint16) {
+		return fmt.Errorf("invalid SCTP chunk length %d", s.ActualLength)
+	}
 	bytes, err := b.PrependBytes(s.ActualLength)
 	if err != nil {
 		return err
 	}
-	copy(bytes, s.bytes)
+	n := copy(bytes, s.bytes)
+	clear(bytes[n:])
 	return nil
 }
 
